@@ -11,6 +11,7 @@ VERIF = os.path.dirname(os.path.dirname(os.path.abspath(__file__)))
 
 def main():
     files = {}
+    ops = {}
     for u in sorted(glob.glob(os.path.join(VERIF, 'units', '*.vrs'))):
         ex = extract.Extractor()
         try:
@@ -20,9 +21,14 @@ def main():
             continue
         for rel, text in ex._src_cache.items():
             files[rel] = sorted(extract.file_functions(text))
+        for m in ex.functions:
+            if 'ops_key' in m:
+                ops[m['ops_key']] = {'ops': m['ops'], 'closures': m['closures']}
     with open(extract.BASELINE_FNS, 'w') as f:
         json.dump(files, f, indent=0, sort_keys=True)
-    print('baseline for %d files' % len(files))
+    with open(extract.BASELINE_OPS, 'w') as f:
+        json.dump(ops, f, indent=0, sort_keys=True)
+    print('baseline for %d files, %d functions under contract' % (len(files), len(ops)))
 
 
 if __name__ == '__main__':
